@@ -17,6 +17,13 @@ class Unknown(Exception):
     pass
 
 
+class OutOfRange(Exception):
+    """the walked path reads element k of a container the model gives fewer than k+1 elements"""
+    def __init__(self, container, k):
+        Exception.__init__(self, '%s[%d]' % (container, k))
+        self.container, self.k = container, k
+
+
 def wrap(v, tc, tw):
     if v is None or isinstance(v, float) or isinstance(v, bool):
         return v
@@ -51,6 +58,22 @@ class Evaluator:
         if r2 in self.model:
             self.used.add(r2)
             return self.model[r2]
+        # indexed atoms: loop counters tracked along the walk are substituted by their current value,
+        # positional accessors are read as subscripts of their container ('#alias' in the model)
+        if 'local:' in r2 or self.model.get('#alias'):
+            r3 = re.sub(r'\(unsigned long\)(?=local:)', '', r2)
+            r3 = re.sub(r'local:(\w+)', lambda m: str(self.model['local:' + m.group(1)]) if isinstance(self.model.get('local:' + m.group(1)), int) and
+                        not isinstance(self.model.get('local:' + m.group(1)), bool) else m.group(0), r3)
+            for acc, cont in (self.model.get('#alias') or {}).items():
+                r3 = re.sub(r'\.%s\((\d+)\)' % re.escape(acc), lambda m: '.%s[%s]' % (cont, m.group(1)), r3)
+            if r3 != r2:
+                for m in re.finditer(r'([\w.\[\]]+?)\[(\d+)\]', r3):
+                    sz = self.model.get(m.group(1) + '.size')
+                    if sz is not None and int(m.group(2)) >= sz:
+                        raise OutOfRange(m.group(1), int(m.group(2)))
+                if r3 in self.model:
+                    self.used.add(r3)
+                    return self.model[r3]
         return None
 
     def ev(self, i):
@@ -155,6 +178,15 @@ class Evaluator:
             except (OverflowError, ZeroDivisionError):
                 return None
             return wrap(v, n.get('tc'), n.get('tw'))
+        if k == 'StringLiteral':
+            return n.get('v')
+        if k == 'CallExpr' and n.get('callee', {}).get('qname') == 'ezc3d::toUpper' and len(n.get('args', [])) == 1:
+            v = self.ev(n['args'][0])
+            return v.upper() if isinstance(v, str) else None
+        if k == 'CXXMemberCallExpr' and n['callee'].get('classq') == 'std::basic_string' and n['callee']['name'] == 'compare' and len(n.get('args', [])) == 1 and n.get('obj') is not None:
+            l, r = self.ev(n['obj']), self.ev(n['args'][0])
+            if isinstance(l, str) and isinstance(r, str):
+                return (l > r) - (l < r)
         # emptiness of a string, however it is spelled: s.compare("") / s == "" / s.empty() / s.size()
         if k == 'CXXMemberCallExpr' and n['callee'].get('classq') == 'std::basic_string' and n.get('obj') is not None:
             key = 'strempty:' + self.R.render(n['obj'])
@@ -191,13 +223,54 @@ class Evaluator:
         return None
 
 
-def walk(fn, model, start=None, stop=None, follow_loops=False, max_steps=5000):
+def store_action(fn, ev, n, cont):
+    """n is an append to container `cont` -> ('append', argument) ; or a subscript of it that is
+    written through (assigned / object of a non-const call) -> ('at', evaluated index)"""
+    R = ev.R
+    if n['k'] == 'CXXMemberCallExpr' and n['callee']['name'] in ('push_back', 'emplace_back') and n.get('obj') is not None and R.render(n['obj']) == cont:
+        return ('append', R.render(n['args'][0]) if n.get('args') else '')
+    if n['k'] == 'CXXMemberCallExpr' and n['callee']['name'] in ('insert', 'erase', 'resize', 'clear', 'pop_back', 'assign') and n.get('obj') is not None and R.render(n['obj']) == cont:
+        return (n['callee']['name'], '')
+    if n['k'] == 'CXXOperatorCallExpr' and n.get('op') == '=' and n.get('args') and R.render(n['args'][0]) == cont:
+        return ('assign-all', '')
+    sub = None
+    if n['k'] == 'CXXOperatorCallExpr' and n.get('op') == '[]' and R.render(n['args'][0]) == cont:
+        sub = n['args'][1]
+    elif n['k'] == 'CXXMemberCallExpr' and n['callee']['name'] == 'at' and n.get('obj') is not None and R.render(n['obj']) == cont and not n['callee'].get('const'):
+        sub = n['args'][0]
+    if sub is None:
+        return None
+    cur = n['id']
+    for p in fn.ancestors(n['id']):
+        pn = fn.nodes[p]
+        if pn['k'] in ('ParenExpr', 'ImplicitCastExpr', 'ExprWithCleanups', 'MaterializeTemporaryExpr', 'CXXBindTemporaryExpr') or \
+                (pn['k'] == 'MemberExpr' and pn['ch'] and fn.strip(pn['ch'][0], 'all') == fn.strip(cur, 'all')):
+            cur = p
+            continue
+        written = False
+        me = fn.strip(cur, 'all')
+        if pn['k'] == 'CXXOperatorCallExpr' and pn.get('op') in ('=', '+=') and fn.strip(pn['args'][0], 'all') == me:
+            written = True
+        elif pn['k'] == 'CXXMemberCallExpr' and not pn['callee'].get('const') and pn.get('obj') is not None and fn.strip(pn['obj'], 'all') in (me, n['id']):
+            written = True
+        elif pn['k'] in ('BinaryOperator', 'CompoundAssignOperator') and pn.get('op', '=') in ('=', '+=', '-=') and fn.strip(pn['ch'][0], 'all') == me:
+            written = True
+        if written:
+            return ('at', ev.ev(sub))
+        return None
+    return None
+
+
+def walk(fn, model, start=None, stop=None, follow_loops=False, max_steps=5000, state=None):
     """follow the event graph from `start` (default ENTRY); every two-way branch is decided by
     evaluating its condition on the model.  Returns (events, end, undecided_conditions) where events
     is the list of node ids met (in order), end in {'NEXIT','XEXIT','throw:<type>@node','stop@node','loop'}"""
     g = fn.events()
     model = dict(model)
     ev = Evaluator(fn, model)
+    if state is not None:
+        state['model'] = model
+        state['ev'] = ev
     v = start if start is not None else g.ENTRY
     out = []
     seen = set()
@@ -224,6 +297,13 @@ def walk(fn, model, start=None, stop=None, follow_loops=False, max_steps=5000):
             out.append(nid)
             if n['k'] == 'CXXThrowExpr':
                 return out, 'throw:%s@%d' % (n.get('throw_t'), nid), undec
+            if state is not None and state.get('track') and n['k'] in ('CXXMemberCallExpr', 'CXXOperatorCallExpr'):
+                act = store_action(fn, ev, n, state['track'])
+                if act is not None:
+                    state.setdefault('acts', []).append((nid, act))
+            if n['k'] == 'ReturnStmt' and state is not None and n['ch']:
+                state['ret'] = ev.ev(n['ch'][0])
+                state['ret_node'] = nid
             # scalar locals with several definitions (loop counters): tracked along the walk
             if n['k'] == 'DeclStmt':
                 for d in n['decls']:
@@ -253,6 +333,9 @@ def walk(fn, model, start=None, stop=None, follow_loops=False, max_steps=5000):
             cnt = range_visits.get(g.branch[v]['term'], 0)
             if cnt < n_el:
                 range_visits[g.branch[v]['term']] = cnt + 1
+                lv = term.get('loopvar') or {}
+                if lv.get('name'):
+                    model['local:' + lv['name']] = cnt
                 seen.discard(v)
                 tg = g.branch[v]['targets'][0]
             else:
